@@ -424,6 +424,14 @@ func genC12Near(ws *WorldSet, wi, t int) C12Case {
 	world := ws.Worlds[wi]
 	out := ws.Canon[wi].Out
 	iv := SetupInv(world)
+	if t < 0 {
+		// a VALID older result whose import block names the package's former location
+		// (the same-named twin elsewhere in the module): not left to the luck of a
+		// seeded history, since a whole family of defects shows only here
+		iv.Print = t == -2
+		st := Step{Op: "write", Path: iv.OutPath, Data: staleImports(world, out), Note: "stale-output:other-import-path"}
+		return C12Case{World: world, Mode: "near", Steps: []Step{st, {Op: "run", Inv: &iv, Bin: "plain"}}}
+	}
 	kind := c12NearKinds[t%len(c12NearKinds)]
 	d := append([]byte(nil), out...)
 	L := len(d)
@@ -875,6 +883,11 @@ func runC12(cfg Config, args []string) int {
 		cnt++
 		for t := range c12NearKinds {
 			near = append(near, recItem{wi, t})
+		}
+	}
+	for wi := range worlds {
+		if canon[wi].Accepted && staleImports(worlds[wi], canon[wi].Out) != nil {
+			near = append(near, recItem{wi, -1}, recItem{wi, -2})
 		}
 	}
 	b := &Batch[C12Case]{Property: "C12", Level: "fault_enumeration", Cfg: cfg, Env: env, N: nHist + len(enum) + len(rec) + len(edits) + len(near),
